@@ -9,8 +9,8 @@ class Prop:
     TARGETS = ['props/C08.vo']
     PROPS_FILE = 'props/C08.v'
     SUITES = [ClusterSuite(evals={'mismatches': 'cmismatches', 'spec_violations': 'spec_violations_c08'},
-                           quick=(60, 150), thorough=(1500, 500), quiet_rounds=14, convergent_cfg=True),
-              NodeSuite(evals={'mismatches': 'mismatches'}, quick=(400, 60), thorough=(8000, 300))]
+                           quick=(60, 150), thorough=(400, 300), quiet_rounds=14, convergent_cfg=True),
+              NodeSuite(evals={'mismatches': 'mismatches'}, quick=(400, 60), thorough=(3000, 150))]
     RULE = ('cluster suite: 2-4 real instances (real Context/StateModes/FSM/listener dispatch/proxy server+proxy '
             'filters/handshake against the real RPCInterface) under random schedules of ticks, deliveries, handshakes, '
             'notifications, crashes, restarts (also faster than detection), cuts and heals; then disturbances stop '
